@@ -65,6 +65,10 @@ class IterFail(Exception):
     pass
 
 
+class SubmitFail(Exception):
+    pass
+
+
 def task(i, fails):
     time.sleep(0.0005 * (i % 3))
     if fails:
@@ -101,6 +105,12 @@ class CFBackend(JP.ParallelBackendBase):
         return max(1, n_jobs or 1)
 
     def submit(self, func, callback=None):
+        k = getattr(self, "submit_fail_at", None)
+        if k is not None and threading.get_ident() == STATE["main"]:
+            # a backend failure at dispatch, in the caller's thread only (e.g. a broken executor refusing work)
+            self.n_submits = getattr(self, "n_submits", 0) + 1
+            if self.n_submits == k:
+                raise SubmitFail(k)
         fut = self._pool.submit(func)
         if callback is not None:
             fut.add_done_callback(callback)
@@ -141,15 +151,19 @@ def run_case(c):
     res = {"calls": [], "stalls": 0, "visits": 0}
 
     def body():
-        STATE.update(at=tuple(c["at"]), role=c["role"], hits=tuple(c.get("hits", [1, 2, 3])), delay=c.get("delay", 0.03),
+        STATE.update(at=tuple(c["at"]) if c.get("at") else None, role=c.get("role", "cb"), hits=tuple(c.get("hits", [1, 2, 3])), delay=c.get("delay", 0.03),
                      count=0, stalls=0, main=threading.get_ident())
         backend = CFBackend() if c.get("backend") == "cf" else "threading"
+        if c.get("submit_fail_at") is not None:
+            backend.submit_fail_at = c["submit_fail_at"]
         p = Parallel(n_jobs=c["n_jobs"], backend=backend, pre_dispatch=c["pre"], return_as=c["return_as"],
                      batch_size=c.get("batch_size", "auto"), timeout=c.get("timeout"))
         for k in range(2 if c.get("reuse") else 1):
             tf = c.get("tfail") if k == 0 else None
             jf = c.get("ifail") if k == 0 else None
             out = {"values": None, "raised": None}
+            if k > 0 and c.get("submit_fail_at") is not None:
+                backend.submit_fail_at = None
             try:
                 r = p(gen_input(c["N"], tf, jf))
                 out["values"] = list(r)
